@@ -172,6 +172,7 @@ func runC03(r *Report) {
 	ruleWrap(r)
 	ruleFreshScanReader(r)
 	ruleNoMergeDecode(r)
+	ruleCompressor(r)
 }
 
 // compareOperands: for a Compare-like call, which argument position is which parameter/field?
